@@ -169,9 +169,28 @@ def document(rnd, with_tags=False, nblocks=None, hazards=True):
     return doc
 
 
+# hand-written documents for interplays the random blocks rarely produce; appended to every sweep
+TARGETED = [
+    # a whole document indented uniformly (docstring style): dedented, not turned into code
+    "    First paragraph of an indented text.\n\n    Second paragraph here.\n\n    - item one\n    - item two\n",
+    "  Intro line\n  continues here.\n\n      real code\n\n  Back to text.\n",
+    # a bare URL before a hard break, alone on its wrapped line or not, both spellings of the break
+    "see the long explanation at http://bare.url/some/longer/path/that/wraps  \nnext line here\n",
+    "- item with http://bare.url/x  \n  more text\n- second www.example.com/p  \n  tail\n",
+    "> quoted https://e.com/a  \n> more\n",
+    # headings directly followed by other blocks
+    "# Heading\n| a | b |\n|---|---|\n| 1 | 2 |\n\nparagraph after the table\n",
+    "## Heading\n- item\n- item two\n\nparagraph after the list\n",
+    "> # Quoted heading\n> | a | b |\n> |---|---|\n> | 1 | 2 |\n>\n> paragraph\n",
+    # empty items, items that are only a code block / quote
+    "1. first\n2.\n3. third\n",
+    "- ```\n  code\n  ```\n- > quote\n- last\n",
+]
+
+
 def documents(seed, n, with_tags=False, hazards=True):
     rnd = random.Random(seed)
-    return [document(rnd, with_tags, hazards=hazards) for _ in range(n)]
+    return [document(rnd, with_tags, hazards=hazards) for _ in range(n)] + list(TARGETED)
 
 
 # ---- oracles -------------------------------------------------------------------------------
